@@ -33,7 +33,7 @@ inductive Seg where
 def segsOut : List Item → List Seg → List Nat
   | _, [] => []
   | items, .text s :: r => greedy (s.length + 1) items s ++ segsOut items r
-  | items, .defn n v :: r => segsOut (define items n v) r
+  | items, .defn n v :: r => n.filter (· = 10) ++ v.filter (· = 10) ++ segsOut (define items n v) r      -- a definition keeps its line breaks
   | items, .verbatim s :: r => s ++ segsOut items r
 
 def expected (rows : List (List Nat × List Nat)) (segs : List Seg) : List Nat :=
